@@ -239,8 +239,11 @@ def _array_cases(spec, rng_small, tier):
     sym = spec["sym"]
     if nd <= 4:
         perms = list(itertools.permutations(range(nd)))
-        for p in perms:
+        for ip, p in enumerate(perms):
             yield {"contract": "C08.transpose_dense", "a": spec, "perm": list(p)}
+            if nd >= 1 and (ip + nd) % 2 == 0:
+                # the same permutation with some axes counted from the end (numpy spelling)
+                yield {"contract": "C08.transpose_dense", "a": spec, "perm": list(p), "neg_mask": (3 * ip + nd) % (2**nd - 1) + 1}
         yield {"contract": "C08.transpose_dense", "a": spec, "perm": None}
     yield {"contract": "C08.conj_dagger_dense", "a": spec}
     if "complex" in spec.get("dtype", "float64") and spec.get("sectors") and (spec["sectors"] == "all" or len(spec["sectors"]) > 1):
@@ -420,15 +423,17 @@ def check_transpose(d):
     if perm is None:
         routes = [("method", lambda: x.transpose()), ("T", lambda: x.T), ("function", lambda: sr.transpose(x)), ("autoray", lambda: ar.do("transpose", x))]
     else:
-        routes = [("method", lambda: x.transpose(p)), ("function", lambda: sr.transpose(x, p)), ("autoray", lambda: ar.do("transpose", x, p))]
+        mask = d.get("neg_mask", 0)
+        q = tuple(ax - nd if (mask >> i) & 1 else ax for i, ax in enumerate(p))  # spelling handed to the library
+        routes = [("method", lambda: x.transpose(q)), ("function", lambda: sr.transpose(x, q)), ("autoray", lambda: ar.do("transpose", x, q))]
     out = run_routes(routes)
     for name, r in out.items():
-        feats = _f(d, route=name, default_perm=perm is None)
+        feats = _f(d, route=name, default_perm=perm is None, negative_axes=bool(d.get("neg_mask", 0)))
         if r[0] == "exc":
             fails.append(("C08.transpose_dense.no_exception", f"{name}: {r[1]}: {r[2]}", feats))
         else:
             _collect("C08.transpose_dense", [(s, f"{name}: {m}") for s, m in expect_array(r[1], want, want_idx, x.charge)], feats, fails)
-    return {"fingerprint": ("tr", spec_struct(d["a"]), repr(perm)), "nontrivial": bool(x.blocks), "failures": fails[:6],
+    return {"fingerprint": ("tr", spec_struct(d["a"]), repr(perm), d.get("neg_mask", 0)), "nontrivial": bool(x.blocks), "failures": fails[:6],
             "sample": {"sym": d["a"]["sym"], "shape": list(x.shape), "perm": perm}}
 
 
